@@ -41,6 +41,7 @@ def dispatch (line : String) : String :=
   | "backoff" :: rest => (handleBackoff rest).getD "bad-op"
   | "prio" :: rest => (handlePrio rest).getD "bad-op"
   | "threads" :: rest => (handleThreads rest).getD "bad-op"
+  | "treq" :: rest => (handleTreq rest).getD "bad-op"
   | "sched" :: rest => (handleSched rest).getD "bad-op"
   | "disp" :: rest => (handleDisp rest).getD "bad-op"
   | "sys" :: rest => (handleSys rest).getD "bad-op"
